@@ -64,7 +64,7 @@ def event_strategy():
                                         "K_alpha", "magnetic_ff", "mass", "density", "number_density", "abundance"]),
                        st.sampled_from(["el+", "iso", "ion", "iso2"]), tbl).map(lambda t: ["read", t[0], t[1], t[2]])
     t_calc = st.tuples(st.sampled_from(H.CALCS), tbl).map(lambda t: ["calc", t[0], t[1]])
-    t_init = st.tuples(st.sampled_from(H.INIT_ENTRIES), tbl).map(lambda t: ["init", t[0], t[1]])
+    t_init = st.tuples(st.sampled_from(H.INIT_ENTRIES + H.INIT_ENTRIES + H.RELOAD_ENTRIES), tbl).map(lambda t: ["init", t[0], t[1]])
     t_assign = st.tuples(st.sampled_from(ASSIGN), tbl).map(lambda t: ["assign", t[0][0], t[0][1], t[1], t[0][2]])
     t_mutate = st.tuples(st.sampled_from(MUTATE), tbl).map(lambda t: ["mutate", t[0][0], t[0][1], t[1]])
     t_pickle = st.tuples(st.sampled_from(["el+", "iso", "ion", "isoion", "D"]), tbl).map(lambda t: ["pickle", t[0], t[1]])
@@ -124,7 +124,10 @@ def fixup(history):
             done[tbl] = set()
             out.append(["create", tbl])
         if ev[0] == "init":
-            if ev[1] in done[tbl]:
+            if ev[1].endswith("+reload"):
+                ensure(tbl, ev[1][:-7])   # reload=True of a loaded group of T: replaces T's data of that group only
+                out.append(ev)
+            elif ev[1] in done[tbl]:
                 out.append(ev)        # repeated init is a legal no-op
             else:
                 ensure(tbl, ev[1])
